@@ -20,7 +20,7 @@ import (
 // record in transit is simulated.)
 
 func init() {
-	SelfTests = append(SelfTests, aead.SelfTest)
+	selfTests("C04", sm4m.SelfTest, aead.SelfTest)
 	register(&Prop{
 		ID:        "C04",
 		Level:     "exploration",
